@@ -601,3 +601,80 @@ func rootKey(a *Term) string {
 	}
 	return fmt.Sprint(r.ID)
 }
+
+// sliceHyps keeps the conjuncts of the hypothesis that share a (non heap-map) symbol with the
+// goal, transitively. Returns nil when nothing would be dropped.
+func (tb *TB) sliceHyps(pc, neg *Term) *Term {
+	var conj []*Term
+	if pc.Op == "and" {
+		conj = pc.Args
+	} else {
+		return nil
+	}
+	symMemo := map[int]map[string]bool{}
+	var syms func(t *Term) map[string]bool
+	syms = func(t *Term) map[string]bool {
+		if m, ok := symMemo[t.ID]; ok {
+			return m
+		}
+		m := map[string]bool{}
+		switch {
+		case t.Op == "var":
+			if t.Sort.Kind != SArray && !strings.Contains(t.Name, "?") {
+				m[t.Name] = true
+			}
+		case strings.HasPrefix(t.Op, "uf:"):
+			if t.Name != "typeof" && t.Name != "pow2" {
+				m["uf:"+t.Name] = true
+			}
+		}
+		for _, a := range t.Args {
+			for k := range syms(a) {
+				m[k] = true
+			}
+		}
+		symMemo[t.ID] = m
+		return m
+	}
+	rel := map[string]bool{}
+	for k := range syms(neg) {
+		rel[k] = true
+	}
+	selected := make([]bool, len(conj))
+	for changed := true; changed; {
+		changed = false
+		for i, c := range conj {
+			if selected[i] {
+				continue
+			}
+			cs := syms(c)
+			hit := len(cs) == 0 // closed facts (e.g. about entry heap only) are cheap to keep
+			for k := range cs {
+				if rel[k] {
+					hit = true
+					break
+				}
+			}
+			if hit {
+				selected[i] = true
+				changed = true
+				for k := range cs {
+					rel[k] = true
+				}
+			}
+		}
+	}
+	var out []*Term
+	dropped := 0
+	for i, c := range conj {
+		if selected[i] {
+			out = append(out, c)
+		} else {
+			dropped++
+		}
+	}
+	if dropped == 0 {
+		return nil
+	}
+	return tb.And(out...)
+}
